@@ -17,7 +17,7 @@ from inferno import neural, observe, RecordTensor
 from rv import factory as fac
 
 KINDS = ["neuron", "synapse", "connection", "reducer", "layer"]
-DTS = [1.0, 0.5, 0.25, 2.0]
+DTS = [1.0, 0.5, 0.25, 2.0, 1.3, 0.7, 0.3]
 
 
 def generate(ctx):
@@ -49,9 +49,9 @@ def generate(ctx):
             elif k == "batchsz":
                 v = rng.randint(1, 4)
             elif k == "delay":
-                v = rng.choice([0.0, 1.0, 2.0, 3.0, 4.0])
+                v = rng.choice([0.0, 1.0, 2.0, 3.0, 4.0, 2.5, 0.7, 1.3, round(rng.uniform(0.0, 5.0), 3)])
             elif k == "duration":
-                v = rng.choice([1.0, 2.0, 3.0, 5.0])
+                v = rng.choice([1.0, 2.0, 3.0, 5.0, 0.0, 2.5, 0.5, round(rng.uniform(0.0, 6.0), 3)])
             elif k == "inplace":
                 v = rng.random() < 0.5
             elif k == "synapse":
